@@ -100,6 +100,7 @@ class Result:
         self.info = []
         self.rc = 0
         self.stderr = ""
+        self.tline = None           # fields of the driver's "T ..." line, if any
 
 
 def run(cmd, timeout=None, symbolize_reports=False) -> Result:
@@ -123,6 +124,8 @@ def run(cmd, timeout=None, symbolize_reports=False) -> Result:
             res.crashes.append((int(pt), rest))
         elif line.startswith("S "):
             res.skipped += int(line.split(" ", 2)[1])
+        elif line.startswith("T "):
+            res.tline = line.split()[1:]
         elif line.startswith("I "):
             res.info.append(line[2:])
     return res
